@@ -1087,9 +1087,101 @@ func exRepair(g *exGraph) *exGraph {
 // calls on the library
 
 type exOpts struct {
-	Skip bool `json:"skip"`
-	Cont bool `json:"cont"`
-	Abs  bool `json:"abs"`
+	Skip  bool `json:"skip"`
+	Cont  bool `json:"cont"`
+	Abs   bool `json:"abs"`
+	Built bool `json:"built,omitempty"` // expand_spec: the root is handed over in another in-memory representation of the same document
+}
+
+// exReshape turns a decoded specification into an equivalent Go value as a program would build it: a schema clause under
+// additionalProperties/additionalItems without the `Allows` flag (the encoder writes the schema whenever one is there), empty
+// but allocated collections where the decoder leaves nil.  Its JSON encoding is unchanged.
+func exReshape(sw *spec.Swagger) {
+	var schema func(s *spec.Schema)
+	schemas := func(m map[string]spec.Schema) {
+		for k, v := range m {
+			schema(&v)
+			m[k] = v
+		}
+	}
+	schema = func(s *spec.Schema) {
+		if s == nil {
+			return
+		}
+		for _, c := range []*spec.SchemaOrBool{s.AdditionalProperties, s.AdditionalItems} {
+			if c != nil && c.Schema != nil {
+				c.Allows = false
+				schema(c.Schema)
+			}
+		}
+		if s.Items != nil {
+			schema(s.Items.Schema)
+			for i := range s.Items.Schemas {
+				schema(&s.Items.Schemas[i])
+			}
+		}
+		for _, l := range [][]spec.Schema{s.AllOf, s.AnyOf, s.OneOf} {
+			for i := range l {
+				schema(&l[i])
+			}
+		}
+		schema(s.Not)
+		schemas(s.Properties)
+		schemas(s.PatternProperties)
+		schemas(s.Definitions)
+		for k, d := range s.Dependencies {
+			schema(d.Schema)
+			s.Dependencies[k] = d
+		}
+		if s.Properties == nil {
+			s.Properties = spec.SchemaProperties{}
+		}
+		if s.Required == nil {
+			s.Required = []string{}
+		}
+		if s.AllOf == nil {
+			s.AllOf = []spec.Schema{}
+		}
+	}
+	param := func(p *spec.Parameter) { schema(p.Schema) }
+	resp := func(r *spec.Response) {
+		if r != nil {
+			schema(r.Schema)
+		}
+	}
+	schemas(sw.Definitions)
+	for k, p := range sw.Parameters {
+		param(&p)
+		sw.Parameters[k] = p
+	}
+	for k, r := range sw.Responses {
+		resp(&r)
+		sw.Responses[k] = r
+	}
+	if sw.Paths == nil {
+		return
+	}
+	for k, pi := range sw.Paths.Paths {
+		for i := range pi.Parameters {
+			param(&pi.Parameters[i])
+		}
+		for _, op := range []*spec.Operation{pi.Get, pi.Put, pi.Post, pi.Delete, pi.Options, pi.Head, pi.Patch} {
+			if op == nil {
+				continue
+			}
+			for i := range op.Parameters {
+				param(&op.Parameters[i])
+			}
+			if op.Responses != nil {
+				resp(op.Responses.Default)
+				for code, r := range op.Responses.StatusCodeResponses {
+					resp(&r)
+					op.Responses.StatusCodeResponses[code] = r
+				}
+			}
+		}
+		sw.Paths.Paths[k] = pi
+	}
 }
 
 type exCall struct {
@@ -1295,6 +1387,9 @@ func exExecWith(c *exCall, global bool) (o *exOutcome) {
 		if err := json.Unmarshal(c.Docs[c.Root], sw); err != nil {
 			fail(fmt.Errorf("decode root: %w", err))
 			return
+		}
+		if c.Opts.Built {
+			exReshape(sw)
 		}
 		var err error
 		if c.Entry == "nil_options" {
